@@ -399,9 +399,21 @@ def _second_crash(res, kern, image, plan, exp, visible, sig_base, ctx):
 
 # ------------------------------------------------------------------------------ run
 def run_plan(plan, trace=False):
-    if "live" in plan:
-        return _run_live(plan, trace)
-    return _run_enum(plan, trace)
+    try:
+        if "live" in plan:
+            return _run_live(plan, trace)
+        return _run_enum(plan, trace)
+    except (K.HarnessError, K.SimCrash):
+        raise
+    except Exception as e:  # noqa: BLE001 - the un-faulted parts of a run (set-up, clean session) must not fail
+        import traceback
+
+        res = RunResult()
+        site = traceback.extract_tb(e.__traceback__)[-1]
+        res.violate("clean-operation-raises", f"C03|clean-operation-raises|{type(e).__name__}",
+                    f"an un-faulted step (committed prefix, clean append session or set-up) raised {e!r} at {site.filename.split('/')[-1]}:{site.name}")
+        res.digest = digest(("exc", repr(e)))
+        return res
 
 
 def _run_enum(plan, trace=False):
